@@ -35,6 +35,10 @@ type Scenario struct {
 	// NoWait[i]: the application of hub i does not allow waiting for trust (no user interface open):
 	// pairing requests of SKIs that are not registered are denied at once
 	NoWait []bool `json:"noWait,omitempty"`
+	// SlowDiscMs[i]: the application of hub i needs this long for a disconnect notification
+	SlowDiscMs []int `json:"slowDiscMs,omitempty"`
+	// UpperSkiTxt: the devices write their SKI in upper case in their mDNS TXT records
+	UpperSkiTxt bool `json:"upperSkiTxt,omitempty"`
 	// SlowLog: log lines for which the application's logger is slow (see slowlog.go)
 	SlowLog []LogRule `json:"slowLog,omitempty"`
 }
@@ -85,6 +89,7 @@ func watchdog(stop chan struct{}, worst *time.Duration, mu *sync.Mutex) {
 func Execute(sc Scenario) *Run {
 	r := &Run{F: NewFabric(), fixedIPv4: sc.FixedIPv4, reg: map[[2]int]bool{}, unlog: func() {}}
 	f := r.F
+	f.UpperSkiTxt.Store(sc.UpperSkiTxt)
 	for i := 0; i < sc.N; i++ {
 		if _, err := f.AddNode(fmt.Sprintf("N%d", i), nil); err != nil {
 			r.Herr = err.Error()
@@ -125,6 +130,9 @@ func Execute(sc Scenario) *Run {
 		}
 		if i < len(sc.SlowAppMs) {
 			n.App.SlowPairing.Store(int64(sc.SlowAppMs[i]))
+		}
+		if i < len(sc.SlowDiscMs) {
+			n.App.SlowDisc.Store(int64(sc.SlowDiscMs[i]))
 		}
 		if i < len(sc.NoWait) && sc.NoWait[i] {
 			n.App.mu.Lock()
